@@ -550,7 +550,13 @@ impl Wb {
                 };
                 match r {
                     None => Outcome::Absent,
-                    Some(Ok(r)) => Outcome::Ok(canon_range_data(&r)),
+                    Some(Ok(r)) => {
+                        let c = canon_range_data(&r);
+                        if st.capture {
+                            st.last_range = Some(r);
+                        }
+                        Outcome::Ok(c)
+                    }
                     Some(Err(e)) => Outcome::Err(e),
                 }
             }
